@@ -9,15 +9,26 @@ SPEC = {
                   ('pkg/secretstore', 'harness/secretstore/zz_verif_c05_test.go')],
         'model_module': 'Model.C05_ChainKeyAnn', 'imports': ['From Wesh Require Import Model.Store.'],
         'shard': 600, 'timeout': 900,
+    }, {
+        'name': 'distribution', 'pkg': '.', 'test': 'TestVerifC05Dist',
+        'files': [('.', 'harness/root/zz_verif_meta_common_test.go'),
+                  ('.', 'harness/root/zz_verif_c05dist_test.go')],
+        'model_module': 'Model.C05_ChainKeyAnn', 'imports': ['From Wesh Require Import Model.Store.'],
+        'shard': 600, 'timeout': 900,
     }],
     'rule': 'per round: one account with two devices and two other accounts; the account group, two contact groups (which share '
             'device and member keys) and two multi-member groups; announcements made at three points of the sender\'s message '
             'history for every party; each announcement is opened in EVERY group by EVERY party (full wrong-recipient / wrong-group '
             'matrix), under two wrong claimed senders, and with every single-bit flip of one ciphertext; non-trivial = every '
-            'combination other than the intended one; distinct = case term per round',
+            'combination other than the intended one; distinct = case term per round; distribution stream: 40 (800) scenarios of 2-3 accounts '
+            '(the first with 1-2 devices) in one multi-member group with REAL GroupContexts (OpenGroup + ActivateGroupContext, i.e. the event loop of '
+            'group_context.go), activations and one-way deliveries of metadata heads interleaved at random, then everything delivered to everybody '
+            'until no log grows; the converged metadata log must be quiescent for the rule system of the model and every device must hold the chain '
+            'key of every other device (IsChainKeyKnownForDevice on the real secret stores)',
     'trusted_base': [
         'Coq 8.16.1 kernel; vm_compute for evaluating the model on cases',
         'no axioms',
+        'harness/root/zz_verif_c05dist_test.go, harness/root/zz_verif_meta_common_test.go (replicas over one in-memory IPFS node, silent pubsub)',
         'harness/secretstore/zz_verif_c05_test.go (identifies keys and nonces by first appearance; chain values by re-deriving the HKDF chain)',
         'modelled, not verified: nacl box = X25519 + XSalsa20-Poly1305 (opens iff same agreement and nonce), Ed25519->X25519 conversion '
         '(identity on identifiers), HKDF',
@@ -25,6 +36,6 @@ SPEC = {
     'assumptions': [
         'symbolic (Dolev-Yao) cryptography; X25519 agreement injective outside low-order points',
         'group ids that differ do so within their first 24 bytes (the nonce is a 24-byte prefix of the 32-byte id)',
-        'distribution half: PARTIAL — theorem about the rule system only',
+        'distribution stream: event handling of GroupContext is asynchronous; the harness waits (up to 15 s) until no log grows for three rounds',
     ],
 }
